@@ -301,11 +301,11 @@ func (rf *vrRef) macInput(h int, beta uint16) []byte {
 func (rf *vrRef) macValid(h int, beta uint16) bool {
 	full := verif.UF("hfmac", 16, rf.macInput(h, beta))
 	m := rf.mac(h)
-	ok := true
+	var diff byte
 	for k := 0; k < 6; k++ {
-		ok = ok && m[k] == full[k]
+		diff |= m[k] ^ full[k]
 	}
-	return ok
+	return diff == 0
 }
 
 // notExpired: Timestamp + (1+ExpTime)*(86400/256) s >= now. 337.5 s per unit = 337 s + half a
@@ -316,8 +316,9 @@ func (rf *vrRef) notExpired(h int, nowSec, nowNsec uint64) bool {
 	addSec := verif.Tabulate(e1*337 + e1/2)
 	expNsec := verif.Tabulate((e1 % 2) * 500000000)
 	expSec := uint64(rf.timestamp(i)) + addSec
-	// expired iff expiry instant < now
-	expired := expSec < nowSec || (expSec == nowSec && expNsec < nowNsec)
+	// expired iff expiry instant < now (two-operand boolean steps keep the harness branch-free)
+	sameSecLater := expSec == nowSec && expNsec < nowNsec
+	expired := expSec < nowSec || sameSecLater
 	return !expired
 }
 
